@@ -127,9 +127,9 @@ type Expect struct {
 	Why    string   // the sentence / rule that fixes it
 }
 
-func open() Expect                      { return Expect{Open: true} }
-func exact(v V, why string) Expect      { return Expect{Accept: []string{v.Render()}, Why: why} }
-func errOnly(why string) Expect         { return Expect{Err: true, Why: why} }
+func open() Expect                 { return Expect{Open: true} }
+func exact(v V, why string) Expect { return Expect{Accept: []string{v.Render()}, Why: why} }
+func errOnly(why string) Expect    { return Expect{Err: true, Why: why} }
 func anyOf(why string, vs ...V) Expect {
 	e := Expect{Why: why}
 	seen := map[string]bool{}
